@@ -196,3 +196,28 @@ pub fn twap_ref(hist: &[(u64, u128)], now: u64, interval: u64) -> (u128, u128, u
     };
     (lo, hi, mean)
 }
+
+/// quote amount the constant-product curve exchanges for `b` base at reserves (x, y): with K = floor(x*y/D) the other side
+/// moves to floor(K*D / y'), y' = y + b when base is added and y - b when it is removed, and a non-zero remainder is resolved
+/// in the curve's favour (one unit less paid out when base is added, one unit more charged when it is removed).
+/// None where 128-bit arithmetic cannot represent an intermediate value or the trade empties the pool.
+pub fn output_quote(x: u128, y: u128, d: u128, add: bool, b: u128) -> Option<u128> {
+    if b == 0 {
+        return Some(0);
+    }
+    let k = to_u128(u256(x) * u256(y))? / d;
+    let y1 = if add { y.checked_add(b)? } else { y.checked_sub(b)? };
+    if y1 == 0 {
+        return None;
+    }
+    let kd = k.checked_mul(d)?;
+    let x1 = kd / y1;
+    let moved = x1.abs_diff(x);
+    if kd % y1 == 0 {
+        Some(moved)
+    } else if add {
+        moved.checked_sub(1)
+    } else {
+        moved.checked_add(1)
+    }
+}
